@@ -1,2 +1,3 @@
+import Smpl.Props.C07
 import Smpl.Props.C18
 import Smpl.Props.C19
